@@ -22,7 +22,11 @@ REQUIRED_COUNTERS = ['coalition_k_ge_1_and_larger', 'refusal', 'hare', 'shared_r
                      'exhausted_several_quotas', 'quota_callable', 'quota_constant', 'quota_none', 'transferer_by_name',
                      'retainer_plurality', 'step_-2', 'accept_equal_false', 'mandatory_quota', 'sens_accept_equal',
                      'sens_mandatory_quota', 'sens_eliminate_step', 'warmup_refusal', 'warmup_larger', 'warmup_other_n', 'warmup_big',
-                     'reference_count_compared', 'hare_fractional_quota_close_exclusion', 'hare_fractional_quota_exclusion_tie']
+                     'reference_count_compared', 'hare_fractional_quota_close_exclusion', 'hare_fractional_quota_exclusion_tie',
+                     # checklist items 10-12
+                     'three_elected_one_count', 'two_on_quota_exactly', 'two_on_quota_exactly_not_accepted', 'hare_3way_remainder2',
+                     'step2_tie_inside_eliminated', 'step2_tie_at_boundary', 'two_over_awarded', 'quota_below_one',
+                     'fewer_votes_than_seats', 'n_seats_zero', 'cross_selector_options']
 RULE = ('(audited against harness/GENERATOR_CHECKLIST.md) ranked profiles over 1-6 candidates, 1-10 ballot types, with and without shared ranks, truncated ballots, weights from a '
         'tie-forcing small set / Fractions / integers up to 10^20, all n_seats 1..#candidates, quota droop / hare, Gregory and '
         'Hare(seed) transfer (Hare with the integer droop quota), TransferableVoteSelector.evaluate; every outcome of the '
@@ -41,6 +45,11 @@ NOT_VERIFIED = ['Decimal (and float) vote counts: the STV classes raise TypeErro
                 'the verified checker pscCheck']
 EXHAUSTIVE = {'thorough': False}
 _CACHE = {}
+
+
+def _bad_clause(msg):
+    return ('float_in_exact_path' if msg.startswith('float in') else 'object_changed_in_place' if msg.startswith('aliasing')
+            else 'draw_contract')
 
 
 def _tag(case, *tags):
@@ -196,7 +205,7 @@ def impl(case):
         return ok
     votes = py_votes(case)
     n = case['n']
-    res, counts, draws, bad, msg = record_run(case, lambda d, s: s.evaluate(votes, n))
+    res, counts, draws, bad, msg = record_run(case, lambda d, s: s.evaluate(votes, n), args={'votes': votes})
     result = res if isinstance(res, dict) else [NAMES.i(c) for c in res]
     quotas = [rec['quota'] for rec in counts if rec.get('quota') is not None]
     q = Fraction(quotas[-1]) if quotas else _quota_used(case, votes)
@@ -237,6 +246,30 @@ def impl(case):
         _tag(case, 'mandatory_quota')
     if case.get('warmup'):
         _tag(case, 'warmup_' + case.get('_warm_kind', 'x'))
+    if n == 0:
+        _tag(case, 'n_seats_zero')
+    if case['votes'] and 0 < sum(Fraction(w) for _, w in case['votes']) < n:
+        _tag(case, 'fewer_votes_than_seats')
+    if any(d.get('c') is not None and d.get('_k', 0) >= 3 and Fraction(d.get('_n', '0')) >= 2 for d in draws):
+        _tag(case, 'hare_3way_remainder2')
+    for rec in counts:
+        if 'err' in rec or rec['shortcut']:
+            continue
+        qv = Fraction(rec['quota']) if rec.get('quota') is not None else None
+        tin = {h: sum((Fraction(w) for _, w in pile), Fraction(0)) for h, pile in rec['alloc_in']}
+        if qv is not None and 0 < qv < 1:
+            _tag(case, 'quota_below_one')
+        if len(rec['elected']) >= 3:
+            _tag(case, 'three_elected_one_count')
+        if qv is not None and sum(1 for c, k in rec['elected'] if tin.get(c) == k * qv) >= 2:
+            _tag(case, 'two_on_quota_exactly')
+        if qv is not None and qv > 0 and rec['elected']:
+            n_rem = n - sum(k for _, k in rec['prev'])
+            if sum(1 for h, t in tin.items() if h is not None and t >= qv) - n_rem >= 2 and n_rem >= 1:
+                _tag(case, 'two_over_awarded')
+        if case.get('step', -1) == -2 and not rec['elected'] and len(rec['eliminated']) == 2 \
+                and tin.get(rec['eliminated'][0]) == tin.get(rec['eliminated'][1]):
+            _tag(case, 'step2_tie_inside_eliminated')
     for rec in counts:
         if 'err' in rec or rec.get('quota') is None:
             continue
@@ -277,7 +310,7 @@ def oracle(case, obs):
         return []
     out = []
     if obs['_bad_draws']:
-        out.append(('float_in_exact_path' if obs['_bad_draws'][0].startswith('float in') else 'draw_contract', obs['_bad_draws'][0]))
+        out.append((_bad_clause(obs['_bad_draws'][0]), obs['_bad_draws'][0]))
     res = obs['result']
     cands = profile_cands(case['votes'])
     n = case['n']
@@ -500,6 +533,12 @@ def _audit_directed(rng):
         yield _case(rng, [[[0], '9'], [[1, 2], '4'], [[2, 1], '3'], [[3, 2], '5']], 1, tags=['directed', 'sens_eliminate_step'], step=st)
     for mq in (False, True):
         yield _case(rng, [[[0], '5'], [[1], '2'], [[2], '1']], 2, tags=['directed', 'sens_mandatory_quota'], mandatory=mq)
+    # 10. multiplicity of the rare events
+    for votes, n_, opts, tags in multiplicity_cases(rng):
+        keep = [t for t in tags if t in ('two_on_quota_exactly_not_accepted', 'step2_tie_at_boundary')]
+        o = dict(opts)
+        yield from _checked(_case(rng, votes, n_, method=o.pop('method', 'gregory'), quota=o.pop('quota', 'droop'),
+                                  seed=o.pop('seed', 0), tags=['directed'] + keep, **o))
     # 6. state between calls
     import random as _random
     for kind in ('refusal', 'larger', 'other_n', 'big'):
@@ -605,6 +644,12 @@ def generate(rng, tier):
     for _ in range(12 if tier == 'quick' else 60):      # each directed shape at least a dozen times per run (checklist item 9)
         for c in _audit_directed(rng):
             yield c
+    for _ in range(2 if tier == 'quick' else 10):
+        # 11. mandatory_quota x accept_quota_equal x every quota form (the distributor form is crossed in C03)
+        for votes, n_, opts in cross_option_cases(rng, distributor=False):
+            o = dict(opts)
+            o.pop('form')
+            yield _case(rng, votes, n_, method=o.pop('method'), quota=o.pop('quota'), tags=['directed', 'cross_selector_options'], **o)
     yield from _close_exclusion_cases(rng, want=(30 if tier == 'quick' else 300), budget=(6000 if tier == 'quick' else 60000))
     N = 1800 if tier == "quick" else 30000
     for _ in range(N):
